@@ -43,7 +43,7 @@ func (check) BudgetSeconds(tier string) int {
 	return 300
 }
 
-var coreMenu = []string{"j2t.Do(bad-middle)", "t2j.Do(cut-middle)", "j2t.Do(nested)", "t2j.Do(nested)", "j2t.HTTPConv.Do", "t2j.HTTPConv.Do", "p2j.Do(nested)", "thrift.Load+Marshal(pooled)", "thrift.MarshalTo(Small)"}
+var coreMenu = []string{"j2t.Do(bad-middle)", "t2j.Do(cut-middle)", "j2t.HTTPConv.Do(fallback,missing-required)", "j2t.HTTPConv.Do(traceback,missing-required)", "j2t.HTTPConv.Do(traceback,ok)", "thrift.MarshalTo(Small,missing-required)", "j2t.HTTPConv.Do(no-body)", "j2t.HTTPConv.Do(fallback,write-default)", "j2t.Do(nested)", "t2j.Do(nested)", "j2t.HTTPConv.Do", "t2j.HTTPConv.Do", "p2j.Do(nested)", "thrift.Load+Marshal(pooled)", "thrift.MarshalTo(Small)"}
 
 type groupDef struct {
 	name string
@@ -284,10 +284,17 @@ func resetPools(poisonOn bool) {
 	vsync.Controlled = true
 	vsync.Reset()
 	vsync.Point = func(p *vsync.Pool, op string) { sched.Point(op + ":" + shortPool(p.Name())) }
-	if poisonOn {
-		vsync.OnPut = func(p *vsync.Pool, x interface{}) { poison(x) }
-	} else {
-		vsync.OnPut = nil
+	doublePut = ""
+	vsync.OnPut = func(p *vsync.Pool, x interface{}) {
+		// invariant of every object pool: an object is never put while it is already in the pool
+		for _, y := range p.Stack {
+			if samePointer(x, y) {
+				doublePut = shortPool(p.Name())
+			}
+		}
+		if poisonOn {
+			poison(x)
+		}
 	}
 	touched = map[string]bool{}
 	vsync.OnGet = func(p *vsync.Pool, x interface{}, fresh bool) {
@@ -296,6 +303,15 @@ func resetPools(poisonOn bool) {
 }
 
 var touched map[string]bool
+var doublePut string
+
+func samePointer(a, b interface{}) bool {
+	va, vb := reflect.ValueOf(a), reflect.ValueOf(b)
+	if va.Kind() != reflect.Ptr || vb.Kind() != reflect.Ptr {
+		return false
+	}
+	return va.Pointer() == vb.Pointer()
+}
 
 // ---- solo results ----
 
@@ -398,6 +414,9 @@ func explore(f *fixture, ids []int, bound int) core.Result {
 			if n > 1 {
 				shared = true
 			}
+		}
+		if doublePut != "" {
+			add("schedule|pool:"+doublePut+"|double-put", "%s: an object was put into pool %s while it was already there (schedule %s)", label, doublePut, sch)
 		}
 		spans := pooledSpans()
 		for k, i := range ids {
@@ -521,6 +540,9 @@ func histories(f *fixture, a, b, depth int, opIdx func(string) int) core.Result 
 				}
 			}
 			states[poolFingerprint()] = true
+			if doublePut != "" {
+				add("history|pool:"+doublePut+"|double-put", "history %v: an object was put into pool %s while it was already there", hn, doublePut)
+			}
 		}
 		if bad := f.inputsIntact(); bad != "" {
 			r.Add("history|any|input-modified", "history %v: shared input(s) %s modified", hn, bad)
